@@ -155,6 +155,15 @@ func ParSignedDataFromProto(typ DutyType, data *pbv1.ParSignedData) (_ ParSigned
 		return ParSignedData{}, errors.New("unsupported duty type")
 	}
 
+	// Structurally incomplete data (e.g. json null in place of a nested object) decodes without error
+	// but panics when it is hashed, cloned or encoded later on, outside of the recover above.
+	// Exercise those operations here so that such data is rejected as a decoding error instead.
+	if _, err := signedData.Clone(); err != nil {
+		return ParSignedData{}, errors.Wrap(err, "unusable signed data")
+	}
+
+	_, _ = signedData.MessageRoot() // Errors are reported when the data is verified, only panics matter here.
+
 	return ParSignedData{
 		SignedData: signedData,
 		ShareIdx:   int(data.GetShareIdx()),
@@ -251,6 +260,16 @@ func UnsignedDataSetFromProto(typ DutyType, set *pbv1.UnsignedDataSet) (_ Unsign
 		resp[PubKey(pubkey)], err = unmarshalUnsignedData(typ, data)
 		if err != nil {
 			return nil, err
+		}
+
+		// Structurally incomplete data decodes without error but panics when it is cloned or encoded
+		// later on (e.g. when stored), outside of the recover above. Reject it here instead.
+		if _, err := resp[PubKey(pubkey)].Clone(); err != nil {
+			return nil, errors.Wrap(err, "unusable unsigned data")
+		}
+
+		if _, err := json.Marshal(resp[PubKey(pubkey)]); err != nil {
+			return nil, errors.Wrap(err, "unusable unsigned data")
 		}
 	}
 
